@@ -823,6 +823,10 @@ def hexfloat(v, ty):
     return '(' + s + ')'
 
 
+class DbgToks(list):
+    dbg = None
+
+
 class FuncTx:
     def __init__(self, m, em, f):
         self.m, self.em, self.f = m, em, f
@@ -971,7 +975,13 @@ class FuncTx:
             pl = []
             for s in lns:
                 toks = tokenize(s)
+                dbg = None
+                for ti in range(len(toks) - 1):
+                    if toks[ti] == ('md', '!dbg') and toks[ti + 1][0] == 'md':
+                        dbg = toks[ti + 1][1][1:]
                 toks = strip_md(toks)
+                toks = DbgToks(toks)
+                toks.dbg = dbg
                 pl.append(toks)
                 if len(toks) > 3 and toks[1][1] == '=' and toks[2][1] == 'phi':
                     p = P(toks)
@@ -1120,6 +1130,7 @@ class FuncTx:
             self.cur_block = bname
             self.emit_label(bname)
             for toks in pl:
+                self.cur_dbg = getattr(toks, 'dbg', None)
                 self.instr(toks)
         return self.finish()
 
@@ -1360,14 +1371,15 @@ class FuncTx:
             self.set(dst, a.t, '(%s ? %s : %s)' % (self.opnd(c), self.opnd(a), self.opnd(b)))
             return
         if op == 'br':
+            mark = (' /*@D%s*/' % self.cur_dbg) if getattr(self, 'cur_dbg', None) else ''
             if p.peek()[1] == 'label':
                 p.next()
-                self.emit(self.goto(unq(p.next()[1][1:])))
+                self.emit(self.goto(unq(p.next()[1][1:])) + mark)
             else:
                 c = self.typed(p)
                 p.expect(','); p.expect('label'); t1 = unq(p.next()[1][1:])
                 p.expect(','); p.expect('label'); t2 = unq(p.next()[1][1:])
-                self.emit('if (%s) %s else %s' % (self.opnd(c), self.goto(t1), self.goto(t2)))
+                self.emit('if (%s) %s else %s' % (self.opnd(c), self.goto(t1), self.goto(t2)) + mark)
             return
         if op == 'switch':
             v = self.typed(p)
@@ -2051,6 +2063,50 @@ def emit_module(m, roots, out):
                 n_defined=len(bodies), root_protos=root_protos)
 
 
+def debug_table(ll_text, c_text):
+    """{c_line: [file, line, function]} for every C line carrying a /*@D<id>*/ marker"""
+    md = {}
+    for m in re.finditer(r'^!(\d+) = (?:distinct )?!(\w+)\((.*)\)$', ll_text, re.M):
+        md[m.group(1)] = (m.group(2), m.group(3))
+
+    def field(body, name):
+        mm = re.search(r'\b%s: (!?"?[^,"]*"?)' % name, body)
+        return mm.group(1) if mm else None
+
+    def resolve(i):
+        kind, body = md.get(i, (None, ''))
+        if kind != 'DILocation':
+            return None
+        line = field(body, 'line')
+        sc = (field(body, 'scope') or '')[1:]
+        fn, fl = None, None
+        seen = 0
+        while sc in md and seen < 50:
+            seen += 1
+            k, b = md[sc]
+            if k == 'DISubprogram':
+                fn = (field(b, 'linkageName') or field(b, 'name') or '').strip('"')
+                f = (field(b, 'file') or '')[1:]
+                if f in md:
+                    fl = (field(md[f][1], 'filename') or '').strip('"')
+                break
+            if fl is None and k in ('DILexicalBlock', 'DILexicalBlockFile'):
+                f = (field(b, 'file') or '')[1:]
+                if f in md:
+                    fl = (field(md[f][1], 'filename') or '').strip('"')
+            sc = (field(b, 'scope') or '')[1:]
+        return [fl, int(line) if line and line.isdigit() else 0, fn]
+
+    out = {}
+    for n, ln in enumerate(c_text.split('\n'), 1):
+        mm = re.search(r'/\*@D(\d+)\*/', ln)
+        if mm:
+            r = resolve(mm.group(1))
+            if r:
+                out[n] = r
+    return out
+
+
 def main():
     import argparse
     ap = argparse.ArgumentParser()
@@ -2060,14 +2116,20 @@ def main():
     ap.add_argument('--check-nsw', action='store_true')
     ap.add_argument('--header')
     ap.add_argument('--info')
+    ap.add_argument('--dbgmap')
     a = ap.parse_args()
-    m = Module(open(a.ll).read(), dict(check_nsw=a.check_nsw))
+    ll_text = open(a.ll).read()
+    m = Module(ll_text, dict(check_nsw=a.check_nsw))
     roots = a.root or [n for n in m.forder if m.funcs[n]['body'] is not None and n.startswith('fsv_')]
     with open(a.o, 'w') as f:
         info = emit_module(m, roots, f)
     if a.header:
         with open(a.header, 'w') as f:
             f.write('#include <stdint.h>\n#include <stddef.h>\n' + '\n'.join(info['root_protos']) + '\n')
+    if a.dbgmap:
+        import json
+        with open(a.dbgmap, 'w') as f:
+            json.dump(debug_table(ll_text, open(a.o).read()), f)
     if a.info:
         import json
         with open(a.info, 'w') as f:
